@@ -2,12 +2,15 @@ package main
 
 import (
 	"fmt"
+	"io"
+	"log"
 	"os"
 )
 
 var props = map[string]func(c *Ctx){}
 
 func main() {
+	log.SetOutput(io.Discard) // the library logs recovered panics
 	if len(os.Args) < 2 {
 		fmt.Fprintln(os.Stderr, "usage: tie extract | tie <Cxx> quick|thorough | tie <Cxx> replay <file> | tie worker ...")
 		os.Exit(2)
